@@ -48,7 +48,7 @@ def write_xlsx(wb, path, as_int=False, with_topology=True):
                    'Preamp_restriction'])
         for i, n in enumerate(wb['nodes']):
             gap(ws, 'nodes', i, 9)
-            ws.append([n['city'], None, None, 'R', i, 2 * i, n['type'] if n['type'] != 'other' else 'whatever', None, None])
+            ws.append([n['city'], None, None, 'west' if i < 2 else 'east', i, 2 * i, n['type'] if n['type'] != 'other' else 'whatever', None, None])
         ws = book.create_sheet('Links')
         for _ in range(3):
             ws.append([None])
